@@ -425,7 +425,7 @@ def meta(tier):
         "technique": MANIFEST_INFO["technique"],
         "rule": "per configuration (runner variant, suppress/store options, timeout, cleanups, foreign observer): every choice sequence with <= bound deviations, a deviation being a stage that does not simply return, a tie resolved the non-default way, or a delivered interrupt; non-trivial = >= 1 deviation; distinct = distinct (config, decisions, outcome, interrupt instant, stage sequence)",
         "bounds": {"deviations": 3 if tier == "quick" else 4, "timeouts": list(TIMEOUTS), "behaviours": list(KINDS), "cleanups": [0, 1, 2], "interrupts": 1},
-        "assumptions": ["virtual clock on the real SelectReactor", "a chain completing exactly at the timeout instant may be reported either way", "on timeout or interrupt the remaining stages are not required to run"],
+        "assumptions": ["virtual clock on the real SelectReactor", "a chain completing exactly at the timeout instant is judged by the tie order recorded for that execution (both orders are explored)", "on timeout or interrupt the remaining stages are not required to run"],
     }
 
 
